@@ -156,7 +156,11 @@ def run_setops(case, ctx):
             # the other operand as an unlabelled array / list that repeats a label: still plain set algebra, each label once
             if sb and pool in ('int', 'str', 'date'):
                 rep_b = list(sb) + [sb[0]]
-                for form, operand in (('array-with-repeat', np.array(rep_b) if pool != 'date' else np.array(rep_b, dtype='datetime64[D]')), ('list-with-repeat', rep_b)):
+                forms = [('array-with-repeat', np.array(rep_b) if pool != 'date' else np.array(rep_b, dtype='datetime64[D]')), ('list-with-repeat', rep_b),
+                         # other iterables a caller may hand over: a tuple, a generator, the keys / values views of a dict (values may repeat, keys cannot), a set
+                         ('tuple-with-repeat', tuple(rep_b)), ('generator-with-repeat', (x for x in rep_b)),
+                         ('dict-values-with-repeat', {i_: x for i_, x in enumerate(rep_b)}.values()), ('dict-keys', {x: None for x in rep_b}.keys()), ('set', set(rep_b))]
+                for form, operand in forms:
                     ctx.transition()
                     try:
                         r2 = getattr(ia, name)(operand)
